@@ -49,6 +49,11 @@ def make_config(seed, tier="quick", corrupt=False, index=0):
         settle_s=5.0,
         settle_extra_s=1.0,
     )
+    # separate stream: degenerate reads of exactly 1 (or at most 2..7) bytes whatever the delivery grouping
+    rc = random.Random(seed ^ 0xC03CA9)
+    cfg["read_cap"] = rc.choice([1, 1, 2, 3, 5, 7]) if rc.random() < 0.25 else 0
+    if cfg["size_law"] == "big":
+        cfg["read_cap"] = 0  # (quadratic: every short read re-scans a 12 KB partial frame)
     if corrupt:
         cfg["n_frames"] = r.randint(1, 6)
         cfg["n_follow"] = r.randint(8, 12)
@@ -155,6 +160,17 @@ class StreamSim(PeerSim):
                 out.append((("burst",), 5.0))
             return out + self.net_enabled()
         out = self.net_enabled()
+        if cfg["chunk_law"] in ("cut1", "cut2", "marker", "byte", "small"):
+            # a cut is a cut only if the reader has consumed what was delivered before the next bytes arrive
+            # (otherwise the StreamReader coalesces the deliveries into one read)
+            conn = self.peer_conn()
+            if conn is not None:
+                s = self.peer_side()
+                rx = conn.tr[1 - s]
+                rd = getattr(getattr(rx, "protocol", None), "_stream_reader", None) if rx is not None else None
+                if rd is not None and len(rd._buffer):
+                    out = [(a, w) for (a, w) in out if not (a[0] == "deliver" and a[1] == conn.cid and a[2] == s)]
+                    self.stat("delivery_held_until_reader_consumed")
         if cfg["corrupt"] and self.n_corrupt < cfg["n_faults"] and not self.follow_sent:
             conn = self.peer_conn()
             if conn is not None and conn.inflight[self.peer_side()] > 0:
